@@ -1015,6 +1015,10 @@ def _read_asn1_object_identifier(
         hint=hint,
     )
 
+    if not raw_oid:
+        hint_str = f" for {hint}" if hint else ""
+        raise ValueError(f"Invalid ASN.1 OBJECT IDENTIFIER value{hint_str}: no content octets")
+
     first_element = struct.unpack("B", raw_oid[:1])[0]
     second_element = first_element % 40
     ids = [(first_element - second_element) // 40, second_element]
